@@ -17,7 +17,7 @@ import torch
 import torch.nn as nn
 
 DEFAULTS = {"ins": [], "out": 0, "k": 1, "d": 1, "s": 1, "bias": True, "bn": False, "dw": False,
-            "excl": False, "causal": False, "reuse": 0, "valid": False, "pm": "zeros", "sym": False, "sub": False}
+            "excl": False, "causal": False, "reuse": 0, "valid": False, "pm": "zeros", "sym": False, "sub": False, "bnaff": True}
 
 
 def norm_node(n: Dict[str, Any]) -> Dict[str, Any]:
@@ -117,7 +117,7 @@ class GrammarNet(nn.Module):
                 self.layers[lname(idx)] = conv
                 names.append(lname(idx))
                 if n["bn"]:
-                    self.layers[lname(idx) + "_bn"] = (nn.BatchNorm1d if dim == 1 else nn.BatchNorm2d)(cout)
+                    self.layers[lname(idx) + "_bn"] = (nn.BatchNorm1d if dim == 1 else nn.BatchNorm2d)(cout, affine=n["bnaff"])
                     names.append(lname(idx) + "_bn")
             elif op == "lin" and n["reuse"]:
                 names = list(self.plan[n["reuse"] - 1][1])
@@ -125,7 +125,7 @@ class GrammarNet(nn.Module):
                 self.layers[lname(idx)] = nn.Linear(cin, n["out"], bias=n["bias"])
                 names.append(lname(idx))
                 if n["bn"]:
-                    self.layers[lname(idx) + "_bn"] = nn.BatchNorm1d(n["out"])
+                    self.layers[lname(idx) + "_bn"] = nn.BatchNorm1d(n["out"], affine=n["bnaff"])
                     names.append(lname(idx) + "_bn")
             elif op == "relu":
                 self.layers[lname(idx)] = nn.ReLU()
@@ -138,7 +138,7 @@ class GrammarNet(nn.Module):
                 names.append(lname(idx))
             elif op == "bns":       # standalone BatchNorm (not directly fused by construction: see FeatGraph)
                 i0 = sh[n["ins"][0]]
-                self.layers[lname(idx)] = (nn.BatchNorm2d if (dim == 2 and not i0["flat"]) else nn.BatchNorm1d)(i0["ch"])
+                self.layers[lname(idx)] = (nn.BatchNorm2d if (dim == 2 and not i0["flat"]) else nn.BatchNorm1d)(i0["ch"], affine=n["bnaff"])
                 names.append(lname(idx))
             elif op == "silu":
                 self.layers[lname(idx)] = nn.SiLU()
@@ -208,8 +208,9 @@ def randomize(net: nn.Module, gen: torch.Generator) -> None:
                 if m.bias is not None:
                     m.bias.copy_(torch.rand(m.bias.shape, generator=gen, dtype=torch.float64) * 0.8 + 0.3)
             elif isinstance(m, (nn.BatchNorm1d, nn.BatchNorm2d)):
-                m.weight.copy_(torch.rand(m.weight.shape, generator=gen, dtype=torch.float64) * 1.0 + 0.5)
-                m.bias.copy_(torch.rand(m.bias.shape, generator=gen, dtype=torch.float64) * 0.8 + 0.3)
+                if m.affine:
+                    m.weight.copy_(torch.rand(m.weight.shape, generator=gen, dtype=torch.float64) * 1.0 + 0.5)
+                    m.bias.copy_(torch.rand(m.bias.shape, generator=gen, dtype=torch.float64) * 0.8 + 0.3)
                 m.running_mean.copy_(torch.rand(m.running_mean.shape, generator=gen, dtype=torch.float64) - 0.5)
                 m.running_var.copy_(torch.rand(m.running_var.shape, generator=gen, dtype=torch.float64) + 0.5)
 
